@@ -68,7 +68,7 @@ def top_spans(leaves, end, depth=1, prefix=()):
     for lf in leaves:
         if lf.path[: len(prefix)] != tuple(prefix) or len(lf.path) < len(prefix) + depth:
             continue
-        name = ".".join(lf.path[: len(prefix) + depth])
+        name = ".".join(x[:-2] if x.endswith("[]") else x for x in lf.path[: len(prefix) + depth])
         if name not in spans:
             spans[name] = [lf.offset, None]
             order.append(name)
